@@ -45,7 +45,7 @@ def mandatory_bins(tier):
     b = ["len_mod16_%d" % i for i in range(16)] + ["len_mod40_%d" % i for i in range(40)]
     b += ["trailing_zeros_%d" % z for z in (0, 1, 2, 15, 16, 17)]
     b += ["zero_components", "zero_comments", "io_stream", "io_path", "mac_on", "mac_off", "default_key", "key_ends_00", "declared_lt_len", "declared_1",
-          "desc_210_bytes", "desc_211_bytes_refused", "tag_order_not_sorted", "crlf_in_path_file", "all_zero_payload", "cross_mode_path_written_stream_read"]
+          "desc_210_bytes", "desc_211_bytes_refused", "tag_order_not_sorted", "crlf_in_path_file", "all_zero_payload", "cross_mode_path_written_stream_read", "rewrite_after_in_place_mutation", "enc_tag_other_value_on_plain_component"]
     return b
 
 
@@ -70,6 +70,8 @@ def check_case(ns, ctx, case, key, scratch, modes=("stream", "path"), macs=(True
             ctx.bin("tag_order_not_sorted")
         if len(c.desc_bytes()) == 210:
             ctx.bin("desc_210_bytes")
+        if any(t == 0xC2 for t, _ in c.desc):
+            ctx.bin("enc_tag_other_value_on_plain_component")
     if not case.comps:
         ctx.bin("zero_components")
     if not case.comments:
@@ -165,6 +167,43 @@ def check_case(ns, ctx, case, key, scratch, modes=("stream", "path"), macs=(True
                 ctx.note("comment_order_changed")
         if path:
             os.unlink(path)
+    # ---- history: the SAME object is mutated in place and written again under the same key -----------------
+    if case.comps and len(case.comps[0].blob) < 5000:
+        rng = ctx.rng
+        obj = G.build_real(ns, case)
+        try:
+            b0 = io.StringIO()
+            obj.write_file(b0, key)
+            j = rng.randrange(len(case.comps))
+            old = case.comps[j]
+            how = rng.randrange(4)
+            if how == 0:
+                nb = bytes((x ^ 0xA5) for x in old.blob)  # same length, other bytes
+            elif how == 1:
+                nb = old.blob + rng.randbytes(rng.choice((1, 15, 16, 17)))
+            elif how == 2:
+                nb = old.blob[: max(1, len(old.blob) // 2)]
+            else:
+                nb = bytes(len(old.blob))
+            obj.components[j].blob = nb
+            obj.components[j].actual_len = len(nb)
+            if len(old.desc_bytes()) < 200:
+                obj.components[j].description[0x7E] = b"x"
+            obj.comments["Rewritten"] = "yes"
+            comps2 = list(case.comps)
+            comps2[j] = MComp(list(obj.components[j].description.items()), nb, len(nb), False)
+            case2 = G.Case(list(case.comments) + [("Rewritten", "yes")] if all(k != "Rewritten" for k, _ in case.comments) else [(k, ("yes" if k == "Rewritten" else v)) for k, v in case.comments], comps2)
+            b1 = io.StringIO()
+            obj.write_file(b1, key)
+            ctx.ev()
+            ctx.bin("rewrite_after_in_place_mutation")
+            back = BF.Bf3File.read_file(io.StringIO(b1.getvalue()), True, key)
+            d = G.diff_file(back, case2)
+            if d:
+                ctx.violation("second_write_of_mutated_object_reads_back_differently:" + d[0].split("[")[0], {"diff": d, "mutation": how}, rp)
+        except Exception as e:
+            if not any(len(c.desc_bytes()) > 208 for c in case.comps):
+                ctx.violation("second_write_of_mutated_object_fails", {"exc": fmt_exc(e)}, rp)
 
 
 def directed_cases(rng):
